@@ -45,7 +45,7 @@ P = {
             "max": 250, "thorough_max": 5000, "timeout": 400, "thorough_timeout": 1500},
     "driver": {"overlay_pkg": "felix/ipsets", "run": "^TestVerifC16$", "timeout": 1500},
     "n_random": (150, 2000),
-    "trace": {"module": "T_RIPSets", "cfg": "T_RIPSets.cfg", "timeout": 900, "heap": "4g"},
+    "trace": {"module": "T_RIPSets", "cfg": "T_RIPSets.cfg", "timeout": 900, "heap": "4g", "rerun_attempts": 3},
     "chunk": 60000,
     "signature": signature,
     "nontrivial": nontrivial,
